@@ -175,19 +175,23 @@ void World::post_models(const Node &doc) {
     for (auto it = arr.begin(); it != arr.end();) {
         auto f = idx.find(it->first);
         if (f == idx.end()) { dims.erase(it->first); it = arr.erase(it); continue; }
+        [&]() {          // a failure ends the checks of this entity only
         const Node &n = *f->second;
         const ArrModel &m = it->second;
+        // the data of an array that carries an alias range dimension are that dimension's ticks
+        auto dm0 = dims.find(it->first);
+        bool aliased = lane_prop == "C13" && dm0 != dims.end() && !dm0->second.empty() && dm0->second[0].kind == 4;
         std::string ext = "(";
         for (size_t i = 0; i < m.extent.size(); i++) { if (i) ext += ","; ext += std::to_string((unsigned long long) m.extent[i]); }
         ext += ")";
         std::string nm = n.field("name");
         if (n.field("dtype") != data_type_to_string(m.dtype)) { arg_class = "dtype=" + dtype_name(m.dtype); fail("C01.dtype", "array '" + nm + "' dtype " + n.field("dtype") + " != model " + data_type_to_string(m.dtype)); return; }
-        if (n.field("extent") != ext) { arg_class = "dtype=" + dtype_name(m.dtype); fail("C01.extent", "array '" + nm + "' extent " + n.field("extent") + " != model " + ext); return; }
+        if (n.field("extent") != ext) { arg_class = "dtype=" + dtype_name(m.dtype); fail(aliased ? "C13.alias-mirror" : "C01.extent", "array '" + nm + "' extent " + n.field("extent") + " != model " + ext + (aliased ? " (the array carries an alias range dimension: its data are the ticks)" : "")); return; }
         std::string raw;
         if (m.dtype == DataType::String) { for (auto &s : m.strs) { raw += std::to_string(s.size()); raw += "'"; raw += s; raw += "',"; } }
         else raw = m.raw;
         std::string want = m.nelms() == 0 ? std::string("0:") + hex64(hash_bytes("", 0)) : std::to_string(raw.size()) + ":" + hex64(hash_bytes(raw.data(), raw.size()));
-        if (n.field("data") != want) { arg_class = "dtype=" + dtype_name(m.dtype); fail("C01.read-equals-model", "array '" + nm + "' stored data differ from the model (whole raw read) got " + n.field("data") + " want " + want); return; }
+        if (n.field("data") != want) { arg_class = "dtype=" + dtype_name(m.dtype); fail(aliased ? "C13.alias-mirror" : "C01.read-equals-model", "array '" + nm + "' stored data differ from the model (whole raw read) got " + n.field("data") + " want " + want + (aliased ? " (the array carries an alias range dimension: its data are the ticks)" : "")); return; }
         if (n.field("origin") != od(m.has_origin, m.origin)) { fail("C01.raw-unaffected", "array '" + nm + "' expansion origin " + n.field("origin") + " != model"); return; }
         if (n.field("polynom") != vd(m.poly)) { fail("C01.raw-unaffected", "array '" + nm + "' polynom coefficients " + n.field("polynom") + " != model " + vd(m.poly)); return; }
         // dimension descriptors
@@ -233,12 +237,14 @@ void World::post_models(const Node &doc) {
                 }
             }
         }
+        }();
         ++it;
     }
     // properties
     for (auto it = prop.begin(); it != prop.end();) {
         auto f = idx.find(it->first);
         if (f == idx.end()) { it = prop.erase(it); continue; }
+        [&]() {
         const Node &n = *f->second;
         const PropModel &m = it->second;
         std::string nm = n.field("name");
@@ -254,12 +260,14 @@ void World::post_models(const Node &doc) {
         if (n.field("uncertainty") != od(m.has_unc, m.unc)) { fail("C14.attrs", "property '" + nm + "' uncertainty " + n.field("uncertainty") + " != " + od(m.has_unc, m.unc)); return; }
         if (n.field("definition") != os(m.has_def, m.def)) { fail("C14.attrs", "property '" + nm + "' definition " + n.field("definition") + " != " + os(m.has_def, m.def)); return; }
         arg_class.clear();
+        }();
         ++it;
     }
     // frames
     for (auto it = frame.begin(); it != frame.end();) {
         auto f = idx.find(it->first);
         if (f == idx.end()) { it = frame.erase(it); continue; }
+        [&]() {
         const Node &n = *f->second;
         const FrameModel &m = it->second;
         std::string nm = n.field("name");
@@ -274,6 +282,7 @@ void World::post_models(const Node &doc) {
             for (auto &x : m.cells[r]) { want += x; want += "|"; }
             if (cl->kids[r].val != want) { fail("C15.cell", "frame '" + nm + "' row " + std::to_string(r) + " via readRow: " + cl->kids[r].val.substr(0, 100) + " != " + want.substr(0, 100)); return; }
         }
+        }();
         ++it;
     }
     arg_class.clear();
@@ -390,9 +399,12 @@ static void after_op(World &w, const Op &op, int rc) {
                 w.cnt.inc("delete.checked");
                 w.cnt.inc("delete.subtree_ids", ids.size());
                 if (!node_equal(expect, doc, where)) w.fail("C04.transform", "after deleting " + w.del_victim + " the document differs from 'victim removed everywhere, nothing else touched' at " + where);
+                // where the harness itself keeps handles to deleted entities (abuse, durable lanes) an unlinked object - and every hard link
+                // stored in it - stays alive, so validity of later victims is not a statement about nix there
                 for (auto &k : w.del_handles) {
                     bool valid = true;
-                    try {
+                    if (w.ghosts_allowed) valid = false;
+                    else try {
                         switch (k.kind) {
                             case 0: valid = k.block.isValidEntity(); break; case 1: valid = k.array.isValidEntity(); break;
                             case 2: valid = k.frame.isValidEntity(); break; case 3: valid = k.tag.isValidEntity(); break;
